@@ -21,8 +21,11 @@ Input line formats and observations:
     `pub fn verif_parse_lex_csv(bytes: &[u8]) -> Result<Vec<(String, u16, u16, i16, String)>>`
     that calls `Lexicon::parse_csv(bytes, "lex.csv")`; wrap the call in `catch_unwind`.
 
-* `ROW <row hex>`
+* `ROW <row hex>`  or  `ROW <row hex> FIXED <0|1>`
     model of `vibrato::utils::parse_csv_row(row)`; `<row hex>` must be valid UTF-8.
+    `FIXED 1` (and the short form without the flag) is the repaired tree of finding F18
+    (output buffer sized by the row), `FIXED 0` the pinned `[0; 4096]` buffer, which panics on
+    cells of 4096 bytes or more.
     Observation: `panic` | `ok <n> <cell hex>*`    (`err` never occurs)
 
 * `QUOTE <cell hex>`
@@ -90,8 +93,13 @@ def handle (toks : List String) : String :=
     | _, _ => "bad-input"
   | ["ROW", row] =>
     match bytesOfHex row with
-    | some bs => showRow (parseCsvRowBytes bs)
+    | some bs => showRow (parseCsvRowBytes true bs)
     | none => "bad-input"
+  | ["ROW", row, "FIXED", fx] =>
+    match bytesOfHex row, fx with
+    | some bs, "0" => showRow (parseCsvRowBytes false bs)
+    | some bs, "1" => showRow (parseCsvRowBytes true bs)
+    | _, _ => "bad-input"
   | ["QUOTE", cell] =>
     match bytesOfHex cell with
     | some bs =>
